@@ -42,6 +42,11 @@ def run(chk):
                          if not lit.lstrip("-").isdigit() else "send [USD %s] (\n source = @world\n destination = @a\n)\n" % lit)
     import tricky
     texts += tricky.literal_scripts(rng, chk.size(300, 5000))
+    # texts that look blank: only characters some library calls whitespace; the grammar skips blank, tab, CR, LF only
+    lookalikes = ["\f", "\v", "\u0085", "\u00a0", "\u1680", "\u2000", "\u2003", "\u2028", "\u2029", "\u202f", "\u205f", "\u3000", "\ufeff", "\u200b"]
+    for w in lookalikes:
+        texts += [w, " " + w + "\n", w * 3, "\n\t" + w + " \r\n", w + "send [USD 1] (source = @a destination = @b)", "send [USD 1] (source = @a destination = @b)" + w]
+    texts += ["".join(rng.choice(lookalikes + [" ", "\n", "\t"]) for _ in range(rng.randrange(1, 6))) for _ in range(40)]
     texts = list(dict.fromkeys(texts))
     gos = runner.run_go([{"id": i, "op": "parse", "script": t} for i, t in enumerate(texts)])
     fails = []
